@@ -53,6 +53,10 @@ type monitor struct {
 	// (unsuccessful) attempt, as the API documents.
 	observed map[string]bool
 	foreign  map[string]string // planted Pod key -> name of the Job whose task name it occupies
+
+	seenRestarts int
+	bound        *restartBound
+	reqChecked   int
 }
 
 // beforeJobSync is called before every job-controller step with the key that
@@ -800,7 +804,38 @@ func (m *monitor) onJobConfigEntry(e *sim.Entry) {
 
 // ---------- after every step ----------
 
+// restartBounds is captured whenever the controller process (re)starts.
+type restartBound struct {
+	at            time.Time
+	lastScheduled map[string]time.Time // JobConfig key -> persisted status.lastScheduled at the restart
+	reqIndex      int
+}
+
+func (m *monitor) checkRestartBounds() {
+	w := m.r.w
+	if w.Restarts != m.seenRestarts {
+		m.seenRestarts = w.Restarts
+		m.bound = &restartBound{at: w.StartedAt, lastScheduled: w.PersistedAtStart, reqIndex: w.RequestsAtStart}
+		m.reqChecked = w.RequestsAtStart
+	}
+	if m.bound == nil {
+		m.reqChecked = len(w.Requests)
+		return
+	}
+	for _, q := range w.Requests[m.reqChecked:] {
+		m.label("request-after-restart")
+		if ls, ok := m.bound.lastScheduled[q.Key]; ok && !q.Time.After(ls) {
+			m.fail("C04", "rerequested-after-restart", "after the restart at %v, %s was requested for %v although lastScheduled %v was already recorded", m.bound.at.UTC(), q.Key, q.Time.UTC(), ls.UTC())
+		}
+		if q.Time.Before(m.bound.at.Add(-301 * time.Second)) {
+			m.fail("C04", "catchup-beyond-downtime", "after the restart at %v, %s was requested for %v, more than the default 300 s downtime threshold in the past", m.bound.at.UTC(), q.Key, q.Time.UTC())
+		}
+	}
+	m.reqChecked = len(w.Requests)
+}
+
 func (m *monitor) afterStep() {
+	m.checkRestartBounds()
 	// C02: at most one scheduled Job per (JobConfig, schedule time); name, annotation, owner, label agree
 	seen := map[string]string{}
 	for _, j := range m.r.w.API.Jobs() {
